@@ -333,3 +333,95 @@ Proof.
   exists b. split; [exact Hfb|]. sproj. rewrite (nb_bids _ _ Hnb), (nb_trace _ _ Hnb), expected_trace_cons.
   cbn [fst snd expected_trace flat_map]. rewrite app_nil_r. split; reflexivity.
 Qed.
+
+(* ------------------------------------------------------------------ the allow-list API *)
+Lemma put_allowed_shape : forall s a u m, exists x, put_allowed s a u m = with_allowed s x.
+Proof. intros s a u m. unfold put_allowed. destruct (find_allowed s a u); eexists; reflexivity. Qed.
+
+Lemma with_allowed_twice : forall s x y, with_allowed (with_allowed s x) y = with_allowed s y.
+Proof. reflexivity. Qed.
+
+Lemma add_entries_shape : forall l s a s', add_entries s a l = Ok s' -> exists x, s' = with_allowed s x.
+Proof.
+  induction l as [|[[ea who] max] rest IH]; intros s a s' H; cbn [add_entries] in H.
+  - injection H as <-. exists (st_allowed s). destruct s; reflexivity.
+  - destruct who as [up u|]; [|discriminate]. destruct max as [m|]; [|discriminate].
+    destruct (negb (0 <? m)); [discriminate|]. destruct (a_sell_amt a <? m); [discriminate|].
+    apply IH in H as [x ->]. destruct (put_allowed_shape s (a_id a) u m) as [y ->].
+    exists x. reflexivity.
+Qed.
+
+Lemma add_entries_err : forall l s a c tr, add_entries s a l = Err c tr ->
+  tr = st_trace s /\ (c = E_INVALID \/ c = E_REMAINING).
+Proof.
+  induction l as [|[[ea who] max] rest IH]; intros s a c tr H; cbn [add_entries] in H.
+  - discriminate.
+  - destruct who as [up u|]; [|injection H as <- <-; split; [reflexivity | left; reflexivity]].
+    destruct max as [m|]; [|injection H as <- <-; split; [reflexivity | left; reflexivity]].
+    destruct (negb (0 <? m)); [injection H as <- <-; split; [reflexivity | left; reflexivity]|].
+    destruct (a_sell_amt a <? m); [injection H as <- <-; split; [reflexivity | right; reflexivity]|].
+    apply IH in H as [-> Hc]. destruct (put_allowed_shape s (a_id a) u m) as [y ->]. split; [reflexivity | exact Hc].
+Qed.
+
+Lemma find_auction_id : forall s id a, find_auction s id = Some a -> a_id a = id /\ In a (st_auctions s).
+Proof.
+  intros s id a H. unfold find_auction in H. apply find_some in H as [Hin Hk].
+  apply N.eqb_eq in Hk. split; assumption.
+Qed.
+
+Lemma api_add_ok : forall s id l s',
+  api_add s id l = Ok s' ->
+  exists a, l <> [] /\ find_auction s id = Some a /\ a_id a = id /\ no_veto s H_BeforeAllowedAdded = true /\
+    add_entries (with_trace s (st_trace s ++ all_calls s H_BeforeAllowedAdded (enc_entries l))) a l = Ok s'.
+Proof.
+  intros s id l s' H. unfold api_add in H.
+  destruct l as [|e0 rest]; [discriminate|].
+  destruct (find_auction s id) as [a|] eqn:Hfa; [|discriminate].
+  apply bind_ok_inv in H as [s1 [H1 H]]. apply call_hook_ok_inv in H1 as [Hn ->].
+  exists a. split; [discriminate|]. split; [reflexivity|].
+  split; [apply (find_auction_id s id a Hfa)|]. split; [exact Hn | exact H].
+Qed.
+
+Lemma api_add_hooks : forall s id l s',
+  api_add s id l = Ok s' ->
+  st_trace s' = st_trace s ++ expected_trace s [(H_BeforeAllowedAdded, enc_entries l)]
+  /\ exists x, s' = with_allowed (with_trace s (st_trace s')) x.
+Proof.
+  intros s id l s' H. apply api_add_ok in H as [a [_ [_ [_ [_ H]]]]].
+  apply add_entries_shape in H as [x ->]. sproj.
+  rewrite expected_trace_cons. cbn [fst snd expected_trace flat_map]. rewrite app_nil_r.
+  split; [reflexivity | exists x; reflexivity].
+Qed.
+
+Lemma check_pos_Some : forall x m, check_pos x = Some m -> x = Some m /\ 0 < m.
+Proof.
+  intros x m H. unfold check_pos in H. destruct x as [z|]; [|discriminate].
+  destruct (0 <? z) eqn:E; [|discriminate]. injection H as <-. apply Z.ltb_lt in E. split; [reflexivity | exact E].
+Qed.
+
+Lemma api_update_ok : forall s id u max s',
+  api_update s id u max = Ok s' ->
+  exists a e m, find_auction s id = Some a /\ find_allowed s id u = Some e /\ max = Some m /\ 0 < m /\
+    no_veto s H_BeforeAllowedUpdated = true /\
+    s' = put_allowed (with_trace s (st_trace s ++ all_calls s H_BeforeAllowedUpdated [zN id; zN u; m])) id u m.
+Proof.
+  intros s id u max s' H. unfold api_update in H.
+  destruct (find_auction s id) as [a|] eqn:Hfa; [|discriminate].
+  destruct (find_allowed s id u) as [e|] eqn:Hal; [|discriminate].
+  destruct (check_pos max) as [m|] eqn:Hm; [|discriminate].
+  apply bind_ok_inv in H as [s1 [H1 H]]. apply call_hook_ok_inv in H1 as [Hn ->]. injection H as <-.
+  apply check_pos_Some in Hm as [-> Hpos].
+  exists a, e, m. repeat (split; [first [assumption | reflexivity]|]). reflexivity.
+Qed.
+
+Lemma api_update_hooks : forall s id u max s',
+  api_update s id u max = Ok s' ->
+  exists m, max = Some m /\
+    st_trace s' = st_trace s ++ expected_trace s [(H_BeforeAllowedUpdated, [zN id; zN u; m])].
+Proof.
+  intros s id u max s' H. apply api_update_ok in H as [a [e [m [_ [_ [-> [_ [_ ->]]]]]]]].
+  exists m. split; [reflexivity|].
+  destruct (put_allowed_shape (with_trace s (st_trace s ++ all_calls s H_BeforeAllowedUpdated [zN id; zN u; m])) id u m)
+    as [x ->]. sproj.
+  rewrite expected_trace_cons. cbn [fst snd expected_trace flat_map]. rewrite app_nil_r. reflexivity.
+Qed.
